@@ -162,7 +162,7 @@ func coqMessage(m *amqp.Message) string {
 	if m.Header != nil {
 		hdr = coqHeaderInner(m.Header)
 	}
-	return fmt.Sprintf("CMsg (mkMsg %d %s %s %s [%s])", m.ID, hdr, coqH([]byte(m.Exchange)), coqH([]byte(m.RoutingKey)), strings.Join(fs, "; "))
+	return fmt.Sprintf("CMsg (mkMsg %d %s %s %s [%s] %d)", m.ID, hdr, coqH([]byte(m.Exchange)), coqH([]byte(m.RoutingKey)), strings.Join(fs, "; "), m.DeliveryCount)
 }
 
 func coqBool(b bool) string {
